@@ -44,10 +44,23 @@ partial def parseAModel (j : Json) : M (AModel Rat) := do
       let a ← getField j "a" >>= parseAModel
       let b ← getField j "b" >>= parseAModel
       pure (.sum a b)
+  | "redshift" => do
+      let m ← getField j "m" >>= parseAModel
+      pure (.redshift (← fRat j "zp1") m)
   | s => .error s!"unknown model kind {s}"
 
 def parseIntType (s : String) : IntType :=
   if s = "trapezoid" then .trapezoid else if s = "analytical" then .analytical else .other
+
+def parseFluxOpt (j : Json) : M FluxOpt :=
+  match fOpt j "fu" with
+  | none => pure .absent
+  | some (.str "absent") => pure .absent
+  | some (.str "photlam") => pure .photlam
+  | some (.str "flam") => pure .flam
+  | some (.str "notwav") => pure .notWav
+  | some (.str "unparsable") => pure .unparsable
+  | some _ => .error "bad fu"
 
 def dispatchC12M (op : String) (j : Json) : M Json := do
   match op with
@@ -60,7 +73,11 @@ def dispatchC12M (op : String) (j : Json) : M Json := do
         | none => pure none
         | some v => (asStr v).map (fun s => some (parseIntType s))
       let conf := parseIntType (← fStr j "conf")
-      let r := specIntegrate C transcQ unitless m x req conf
+      let fu ← parseFluxOpt j
+      let kw ← match fOpt j "kw" with
+        | none => pure false
+        | some v => asBool v
+      let r := specIntegrate C transcQ unitless fu kw m x req conf
       pure (outcome (fun (p : Rat × ResUnit × Path) =>
         Json.mkObj [("value", jRat p.1), ("unit", Json.str p.2.1.name), ("path", Json.str p.2.2.name)]) r)
   | "c12_eval" => do
